@@ -282,7 +282,7 @@ func runC09(r *Report) {
 		// no bypass: success returns only via the skipHashCheck-true edge or through a comparison block
 		key = rm + "/" + k + "/no-bypass"
 		skipT, _ := condEdges(fn, func(c ssa.Value) bool {
-			if pr, ok := c.(*ssa.Parameter); ok && pr.Name() == "skipHashCheck" {
+			if pr, ok := c.(*ssa.Parameter); ok && refName(pr) == "skipHashCheck" {
 				return true
 			}
 			return isFieldLoad("sstables.SSTableFullScanIterator", "skipHashCheck")(c)
@@ -376,7 +376,7 @@ func ruleCrcAgree(r *Report) {
 			if !cc.IsInvoke() || cc.Value != nw[0].Instr.(ssa.Value) {
 				continue // only writes into the hash created by crc64.New
 			}
-			if pr, ok := cc.Args[0].(*ssa.Parameter); ok && (pr.Name() == "value" || len(fn.Params) == 1) {
+			if pr, ok := cc.Args[0].(*ssa.Parameter); ok && (refName(pr) == "value" || len(fn.Params) == 1) {
 				fed++
 			} else {
 				fed += 100
@@ -402,7 +402,7 @@ func ruleCrcAgree(r *Report) {
 				continue
 			}
 			if c, ok := a[0].(*ssa.Call); ok && c.Call.IsInvoke() && c.Call.Method.Name() == "Sum64" {
-				if po := paramOrigin(a[1]); po != nil && (po.Name() == "value" || len(fn.Params) == 1) {
+				if po := paramOrigin(a[1]); po != nil && (refName(po) == "value" || len(fn.Params) == 1) {
 					okZ = true
 				}
 			}
